@@ -32,6 +32,8 @@ def run(ck):
     fw = repo.find_function("Composition.to_weight")
     for f in (fm, fw):
         ck.analysed_function(f)
+    from ..purity import purity
+    purity(ck, repo, [fm, fw, repo.find_function("Composition.first"), repo.find_function("Composition.second")])
     om = analyse(repo, fm, cfg)
     ow = analyse(repo, fw, cfg)
     ck.analysed["paths"] += len(om) + len(ow)
